@@ -163,8 +163,24 @@ func NewSim(c *kit.Check, r *kit.Rng, o SimOpts) *Sim {
 	for i := 0; i < 2; i++ {
 		ch := s.Ch[i]
 		ch.OnTx = func(o *kit.Outcome) { s.observe(ch.Idx, o) }
+		// the two mock v2 applications answer with different, sequence-dependent acknowledgements, so that the
+		// order and identity of app acknowledgements in a multi-payload packet is observable
+		ch.Sim.MockModuleV2A.IBCApp.OnRecvPacket = distinctAckApp("zz-app-A")
+		ch.Sim.MockModuleV2B.IBCApp.OnRecvPacket = distinctAckApp("aa-app-B")
 	}
 	return s
+}
+
+func distinctAckApp(tag string) func(ctx sdk.Context, src, dst string, seq uint64, payload channeltypesv2.Payload, relayer sdk.AccAddress) channeltypesv2.RecvPacketResult {
+	return func(ctx sdk.Context, src, dst string, seq uint64, payload channeltypesv2.Payload, relayer sdk.AccAddress) channeltypesv2.RecvPacketResult {
+		switch {
+		case bytes.Equal(payload.Value, ibcmock.MockPacketData):
+			return channeltypesv2.RecvPacketResult{Status: channeltypesv2.PacketStatus_Success, Acknowledgement: []byte(fmt.Sprintf("%s-ack-%d", tag, 9-seq%7))}
+		case bytes.Equal(payload.Value, ibcmock.MockAsyncPacketData):
+			return channeltypesv2.RecvPacketResult{Status: channeltypesv2.PacketStatus_Async}
+		}
+		return channeltypesv2.RecvPacketResult{Status: channeltypesv2.PacketStatus_Failure}
+	}
 }
 
 func (s *Sim) log(format string, args ...any) {
